@@ -90,11 +90,16 @@ function genSpec(seed, idx) {
     const nl = rng.pick([1, 2, 3, 4, 4]);
     const lts = LTS.slice(0, nl);
     // the Self type of the impl block: usually fully generic, sometimes with a 'static slot (`impl<'s1> O<'static, 's1>`)
-    const implLts = owner.lts.map((_, i) => (rng.chance(1, 6) ? "static" : "s" + i));
-    const anyLt = () => rng.pick(lts);
+    let implLts = owner.lts.map((_, i) => (rng.chance(1, 6) ? "static" : "s" + i));
+    // a Self type that mixes 'static and named slots, used together with parameters on the impl's lifetimes
+    const mixedSelf = owner.lts.length >= 2 && rng.chance(1, 3);
+    if (mixedSelf) { const st = rng.below(owner.lts.length); implLts = owner.lts.map((_, i) => (i === st ? "static" : "s" + i)); }
+    // lifetimes used in parameter and return types: the method's own, sometimes the impl block's
+    const namedImpl = implLts.filter((l) => l !== "static");
+    const anyLt = () => (namedImpl.length && rng.chance(1, 5) ? rng.pick(namedImpl) : rng.pick(lts));
     const outerLt = () => (rng.chance(1, 4) ? null : anyLt()); // null = anonymous `&T`
-    const isStatic = rng.chance(1, 3);
-    const self = isStatic ? null : { lt: outerLt() };
+    const isStatic = mixedSelf ? false : rng.chance(1, 3);
+    const self = isStatic ? null : { lt: mixedSelf ? rng.pick(lts) : outerLt() };
     const params = [];
     const np = rng.below(4);
     for (let p = 0; p < np; p++) {
@@ -113,6 +118,10 @@ function genSpec(seed, idx) {
         const same = rng.chance(1, 2) ? anyLt() : null;
         params.push({ name: "p" + p, kind: "struct", ty: s.name, args: s.lts.map(() => same ?? anyLt()) });
       }
+    }
+    if (mixedSelf && !params.some((p) => namedImpl.includes(p.lt))) {
+      const o = rng.pick(opaques);
+      params.push({ name: "p" + params.length, kind: "opaque", ty: o.name, lt: rng.pick(namedImpl), args: o.lts.map(() => anyLt()) });
     }
     let rkind = rng.pick(["box", "box", "ref", "optbox", "optref", "resbox", "struct", "struct", "resstruct"]);
     if ((rkind === "struct" || rkind === "resstruct") && !outs.length) rkind = "box";
@@ -206,7 +215,10 @@ export function rustSource(spec) {
       for (const p of m.params) ps.push(p.name + ": " + paramTy(p));
       const named = m.implLts.filter((l) => l !== "static");
       s += "    impl" + generics(named, m.implBounds) + " " + o.name + tyArgs(m.implLts) + " {\n";
-      s += "        pub fn " + m.name + generics(m.lts, m.bounds) + "(" + ps.join(", ") + ") -> " + retTy(m.ret) + " { unimplemented!() }\n";
+      // bounds whose longer side is a lifetime of the impl block go into a where clause
+      const outer = [...new Set(m.bounds.filter((b) => !m.lts.includes(b[0])).map((b) => b[0]))];
+      const where = outer.length ? " where " + outer.map((l) => lt(l) + ": " + m.bounds.filter((b) => b[0] === l).map((b) => lt(b[1])).join(" + ")).join(", ") : "";
+      s += "        pub fn " + m.name + generics(m.lts, m.bounds) + "(" + ps.join(", ") + ") -> " + retTy(m.ret) + where + " { unimplemented!() }\n";
       s += "    }\n\n";
     }
   }
